@@ -88,21 +88,23 @@ end Cfg
     the loop body of `_write_serial` 578-586), or the before/after status of the tensor -/
 inductive Pc
   | notStarted
-  /-- about to `with callback_lock` (634 / 870) -/
-  | cbAcq
-  /-- inside the callback, holding the callback lock -/
-  | cbBody
-  /-- about to `with self._tensor_write_locks[id(tensor)]` (564) -/
+  /-- about to `with self._tensor_write_locks[id(tensor)]` (`_write_tensor`): the outermost lock; the
+      callback runs under it -/
   | tAcq
-  /-- about to `budget.acquire` (411, 353-367), holding the tensor lock -/
+  /-- about to `with callback_lock` (single file) / the lock of `_locked_callback` (shards),
+      holding the tensor lock -/
+  | cbAcq
+  /-- inside the callback, holding the tensor lock and the callback lock -/
+  | cbBody
+  /-- about to `budget.acquire`, holding the tensor lock -/
   | bAcq
   /-- inside `Condition.wait` (in the wait set, not notified) -/
   | waiting
   /-- notified; about to re-evaluate the `wait_for` predicate -/
   | woken
-  /-- holding a reservation, inside `tensor.tofile` (413) -/
+  /-- holding a reservation, inside `tensor.tofile` -/
   | write
-  /-- in the `finally`: about to `budget.release` (416, 369-375); `ok` = the write succeeded -/
+  /-- in the `finally`: about to `budget.release`; `ok` = the write succeeded -/
   | bRel (ok : Bool)
   | done (ok : Bool)
 deriving Repr, DecidableEq, Inhabited, Hashable
@@ -191,7 +193,7 @@ def writeTask (cfg : Cfg) (fs : List (List Nat)) (i : Nat) : List (List Nat) :=
     exception or the end of the shard completes the future -/
 def finishTask (cfg : Cfg) (s : State) (i : Nat) (ok : Bool) : State :=
   if ok && cfg.hasNext i then
-    { s with tasks := (s.tasks.set i (.done ok)).set (i + 1) .cbAcq }
+    { s with tasks := (s.tasks.set i (.done ok)).set (i + 1) .tAcq }
   else
     { s with tasks := s.tasks.set i (.done ok)
              futs := s.futs.set (cfg.job i) (if ok then .ok else .err)
@@ -218,16 +220,18 @@ def budgetRelease (cfg : Cfg) (s : State) (i : Nat) (ok : Bool) : State :=
 
 def stepTask (cfg : Cfg) (s : State) (i : Nat) : Option State :=
   match s.tasks[i]? with
+  | some .tAcq =>
+      if s.tLocks.getD (cfg.obj i) false then none
+      else some { s with tLocks := s.tLocks.set (cfg.obj i) true, tasks := s.tasks.set i .cbAcq }
   | some .cbAcq =>
       if s.cbLock then none
       else some { s with cbLock := true, tasks := s.tasks.set i .cbBody }
   | some .cbBody =>
       let s1 : State := { s with log := s.log ++ [i], cbLock := false }
-      if cfg.cbFails i then some (finishTask cfg s1 i false)
-      else some { s1 with tasks := s1.tasks.set i .tAcq }
-  | some .tAcq =>
-      if s.tLocks.getD (cfg.obj i) false then none
-      else some { s with tLocks := s.tLocks.set (cfg.obj i) true, tasks := s.tasks.set i .bAcq }
+      if cfg.cbFails i then
+        -- the exception also leaves `with tensor lock`
+        some (finishTask cfg { s1 with tLocks := s1.tLocks.set (cfg.obj i) false } i false)
+      else some { s1 with tasks := s1.tasks.set i .bAcq }
   | some .bAcq => some (budgetTry cfg s i)
   | some .woken => some (budgetTry cfg s i)
   | some .write =>
@@ -289,7 +293,7 @@ def step (cfg : Cfg) (s : State) : Label → Option State
           if s.idle = 0 then none
           else some { s with queue := q, idle := s.idle - 1
                              futs := s.futs.set j .running
-                             tasks := s.tasks.set (cfg.jobStarts.getD j 0) .cbAcq }
+                             tasks := s.tasks.set (cfg.jobStarts.getD j 0) .tAcq }
   | .exit =>
       if s.queue.isEmpty && s.shutdown && decide (s.idle > 0) then
         some { s with idle := s.idle - 1, exited := s.exited + 1 }
